@@ -155,7 +155,8 @@ Lemma sim_insert_all l : forall s sp c, R s sp ->
   R (fst (api_insert_all I s l c)) (fst (spec_insert_all cap isg sp l c))
   /\ snd (api_insert_all I s l c) = snd (spec_insert_all cap isg sp l c).
 Proof.
-  induction l as [|q l IH]; intros s sp c HR; simpl; auto.
+  induction l as [|q l IH]; intros s sp c HR; [simpl; auto|].
+  cbn [api_insert_all spec_insert_all].
   destruct (sim_insert s sp q HR) as [HR' Hr].
   destruct (i_insert I s q) as [s' r]. destruct (spec_insert cap isg sp q) as [sp' r'].
   simpl in *. subst r'. destruct r as [b|]; simpl; auto.
@@ -165,7 +166,8 @@ Lemma sim_remove_all l : forall s sp c, R s sp ->
   R (fst (api_remove_all I s l c)) (fst (spec_remove_all isg sp l c))
   /\ snd (api_remove_all I s l c) = snd (spec_remove_all isg sp l c).
 Proof.
-  induction l as [|q l IH]; intros s sp c HR; simpl; auto.
+  induction l as [|q l IH]; intros s sp c HR; [simpl; auto|].
+  cbn [api_remove_all spec_remove_all].
   destruct (sim_remove s sp q HR) as [HR' Hr].
   destruct (i_remove I s q) as [s' b]. destruct (spec_remove isg sp q) as [sp' b'].
   simpl in *. subst b'. apply IH. auto.
@@ -180,13 +182,13 @@ Lemma remove_members l : forall s c, Inv ok s -> NoDup l -> incl l (i_all I s) -
   /\ Permutation (i_all I (fst (api_remove_all I s l c)))
                  (filter (fun x => negb (memq x l)) (i_all I s)).
 Proof.
-  induction l as [|q l IH]; intros s c HI Hnd Hincl; simpl.
-  - repeat split; auto. lia. rewrite filter_all; auto.
-  - destruct (i_remove I s q) as [s' b] eqn:E.
+  induction l as [|q l IH]; intros s c HI Hnd Hincl.
+  - simpl. repeat split; auto. lia. rewrite filter_all; auto.
+  - cbn [api_remove_all]. destruct (i_remove I s q) as [s' b] eqn:E.
     destruct (ok_remove cap I ok s q s' b HI E) as (HI' & Ht & Hb & HP').
     assert (Hq : In q (i_all I s)) by (apply Hincl; left; auto).
-    assert (Hn : norm isg q = q) by (eapply ok_norm; eauto).
-    rewrite Hn in *. assert (b = true) by (rewrite Hb; apply memq_in; auto). subst b.
+    assert (Hn : norm isg q = q) by exact (ok_norm cap I ok s q HI Hq).
+    rewrite Hn in *. assert (Hbt : b = true) by (rewrite Hb; apply memq_in; auto). clear Hb. subst b.
     inversion Hnd as [|? ? Hnotin Hnd']; subst.
     assert (Hincl' : incl l (i_all I s')).
     { intros x Hx. eapply Permutation_in; [apply Permutation_sym, HP'|].
@@ -195,7 +197,7 @@ Proof.
     destruct (IH s' (c + 1) HI' Hnd' Hincl') as (H1 & H2 & H3 & H4).
     repeat split; auto.
     + congruence.
-    + rewrite H3. lia.
+    + rewrite H3. cbn [length]. lia.
     + eapply perm_trans; [exact H4|].
       eapply perm_trans; [apply Permutation_filter, HP'|].
       rewrite filter_filter. erewrite filter_ext_in'; [apply Permutation_refl|].
@@ -217,10 +219,10 @@ Proof.
       rewrite !andb_true_iff in Hm. destruct Hm as [[[H1 H2] H3] H4].
       apply N.eqb_eq in H1, H2, H3. destruct x as [xs xp xo xg]. simpl in *. subst.
       unfold norm in *. destruct isg; simpl in *.
-      + inversion Hn; subst. rewrite H1. reflexivity.
-      + f_equal. destruct (qg q), xg; simpl in H4; try discriminate; auto.
+      + symmetry. exact Hn.
+      + destruct q as [s0 p0 o0 g0]. simpl in *. f_equal.
+        destruct g0, xg; simpl in H4; try discriminate; auto.
         apply N.eqb_eq in H4. congruence.
-        destruct q; reflexivity.
     - intros [-> Hin]. split; auto. unfold qmatch. simpl. rewrite !orb_false_r.
       unfold norm. destruct isg; simpl; rewrite !N.eqb_refl; simpl; auto.
       destruct (qg q); simpl; auto. apply N.eqb_refl. }
